@@ -24,14 +24,15 @@ Record task := {
   t_value : bool          (* HandleInfo.value is Some(Ok(..)) *)
 }.
 
-(* Scheduler::schedule(task, delay) at time `now` *)
-Definition spawn (now : N) (b : body) (delay : option N) : task :=
+(* RepeatTask::new(period, ..) at time `now`: its first timer is armed at construction;
+   RepeatTask::starting_now(period, ..): the first run is due at once *)
+Definition repeat_new (now : N) (job : nat) (period : N) : body := BRepeat job period (now + period) 0.
+Definition repeat_starting_now (job : nat) (period : N) : body := BRepeat job period 0 0.
+
+(* Scheduler::schedule(task, delay) *)
+Definition spawn (b : body) (delay : option N) : task :=
   {| t_stage := match delay with Some d => StDelay d | None => StBody end;
-     t_body := match b with
-               | BRepeat j p _ _ => BRepeat j p (now + p) 0      (* RepeatTask::new arms its first timer now *)
-               | BOnce j => BOnce j
-               end;
-     t_keep := true; t_value := false |}.
+     t_body := b; t_keep := true; t_value := false |}.
 
 Definition with_stage (t : task) (s : stage) : task :=
   {| t_stage := s; t_body := t_body t; t_keep := t_keep t; t_value := t_value t |}.
